@@ -260,17 +260,22 @@ void ep_mul_sim_lot_endom(ep_t r, const ep_t p[], const bn_t k[], int n) {
 	if (n <= 10) {
 		ep_t *_p = RLC_ALLOCA(ep_t, 2 * n);
 
+		for (j = 0; j < 2; j++) {
+			bn_null(_k[j]);
+		}
+		for (i = 0; _p != NULL && i < 2 * n; i++) {
+			ep_null(_p[i]);
+		}
+
 		RLC_TRY {
 			if (naf == NULL || _p == NULL) {
 				RLC_THROW(ERR_NO_MEMORY);
 			}
 			bn_new(q);
 			for (j = 0; j < 2; j++) {
-				bn_null(_k[j]);
 				bn_new(_k[j]);
 			}
 			for (i = 0; i < 2 * n; i++) {
-				ep_null(_p[i]);
 				ep_new(_p[i]);
 			}
 
@@ -318,7 +323,7 @@ void ep_mul_sim_lot_endom(ep_t r, const ep_t p[], const bn_t k[], int n) {
 			bn_free(q);
 			bn_free(_k[0]);
 			bn_free(_k[1]);
-			for (i = 0; i < 2 * n; i++) {
+			for (i = 0; _p != NULL && i < 2 * n; i++) {
 				ep_free(_p[i]);
 			}
 			RLC_FREE(_p);
@@ -332,6 +337,12 @@ void ep_mul_sim_lot_endom(ep_t r, const ep_t p[], const bn_t k[], int n) {
 		ep_null(t);
 		ep_null(u);
 		ep_null(v);
+		for (i = 0; i < 2; i++) {
+			bn_null(_k[i]);
+		}
+		for (j = 0; _p != NULL && j < 2 * c; j++) {
+			ep_null(_p[j]);
+		}
 
 		RLC_TRY {
 			if (naf == NULL || _p == NULL) {
@@ -343,10 +354,8 @@ void ep_mul_sim_lot_endom(ep_t r, const ep_t p[], const bn_t k[], int n) {
 			ep_new(u);
 			ep_new(v);
 			for (i = 0; i < 2; i++) {
-				bn_null(_k[i]);
 				bn_new(_k[i]);
 				for (j = 0; j < c; j++) {
-					ep_null(_p[i*c + j]);
 					ep_new(_p[i*c + j]);
 					ep_set_infty(_p[i*c + j]);
 				}
@@ -423,7 +432,7 @@ void ep_mul_sim_lot_endom(ep_t r, const ep_t p[], const bn_t k[], int n) {
 			ep_free(v);
 			for (i = 0; i < 2; i++) {
 				bn_free(_k[i]);
-				for (j = 0; j < c; j++) {
+				for (j = 0; _p != NULL && j < c; j++) {
 					ep_free(_p[i*c + j]);
 				}
 			}
@@ -457,10 +466,15 @@ static void ep_mul_sim_plain(ep_t r, const ep_t p, const bn_t k, const ep_t q,
 	ep_t t1[1 << (RLC_WIDTH - 2)];
 	size_t l, l0, l1;
 
+	for (i = 0; i < (1 << (RLC_WIDTH - 2)); i++) {
+		ep_null(t0[i]);
+	}
+	for (i = 0; i < (1 << (RLC_WIDTH - 2)); i++) {
+		ep_null(t1[i]);
+	}
 	RLC_TRY {
 		if (!gen) {
 			for (i = 0; i < (1 << (RLC_WIDTH - 2)); i++) {
-				ep_null(t0[i]);
 				ep_new(t0[i]);
 			}
 			ep_tab(t0, p, RLC_WIDTH);
@@ -469,7 +483,6 @@ static void ep_mul_sim_plain(ep_t r, const ep_t p, const bn_t k, const ep_t q,
 
 		/* Prepare the precomputation table. */
 		for (i = 0; i < (1 << (RLC_WIDTH - 2)); i++) {
-			ep_null(t1[i]);
 			ep_new(t1[i]);
 		}
 
@@ -553,6 +566,9 @@ void ep_mul_sim_lot_plain(ep_t r, const ep_t p[], const bn_t k[], int n) {
 	ep_t *_p = RLC_ALLOCA(ep_t, n);
 	size_t l, *_l = RLC_ALLOCA(size_t, n);
 
+	for (i = 0; _p != NULL && i < n; i++) {
+		ep_null(_p[i]);
+	}
 	RLC_TRY {
 		l = 0;
 		for (i = 0; i < n; i++) {
@@ -564,7 +580,6 @@ void ep_mul_sim_lot_plain(ep_t r, const ep_t p[], const bn_t k[], int n) {
 		}
 
 		for (i = 0; i < n; i++) {
-			ep_null(_p[i]);
 			ep_new(_p[i]);
 		}
 
@@ -595,7 +610,7 @@ void ep_mul_sim_lot_plain(ep_t r, const ep_t p[], const bn_t k[], int n) {
 	} RLC_CATCH_ANY {
 		RLC_THROW(ERR_CAUGHT);
 	} RLC_FINALLY {
-		for (i = 0; i < n; i++) {
+		for (i = 0; _p != NULL && i < n; i++) {
 			ep_free(_p[i]);
 		}
 		RLC_FREE(_l);
@@ -659,19 +674,23 @@ void ep_mul_sim_trick(ep_t r, const ep_t p, const bn_t k, const ep_t q,
 	bn_null(_k);
 	bn_null(_m);
 
+	for (int i = 0; i < (1 << w); i++) {
+		ep_null(t0[i]);
+		ep_null(t1[i]);
+	}
+	for (int i = 0; i < (1 << RLC_WIDTH); i++) {
+		ep_null(t[i]);
+	}
 	RLC_TRY {
 		bn_new(n);
 		bn_new(_k);
 		bn_new(_m);
 
 		for (int i = 0; i < (1 << w); i++) {
-			ep_null(t0[i]);
-			ep_null(t1[i]);
 			ep_new(t0[i]);
 			ep_new(t1[i]);
 		}
 		for (int i = 0; i < (1 << RLC_WIDTH); i++) {
-			ep_null(t[i]);
 			ep_new(t[i]);
 		}
 
@@ -809,12 +828,14 @@ void ep_mul_sim_joint(ep_t r, const ep_t p, const bn_t k, const ep_t q,
 	bn_null(_k);
 	bn_null(_m);
 
+	for (i = 0; i < 5; i++) {
+		ep_null(t[i]);
+	}
 	RLC_TRY {
 		bn_new(n);
 		bn_new(_k);
 		bn_new(_m);
 		for (i = 0; i < 5; i++) {
-			ep_null(t[i]);
 			ep_new(t[i]);
 		}
 
